@@ -27,6 +27,7 @@ struct Node {
   bool ge0 = false;              // variable assumed >= 0
   bool wild = false;             // variable standing for memory the library does not define (knot padding)
   int inf = 0;                   // +1 / -1: the constant +inf / -inf (only ever compared)
+  bool nan = false;              // the constant NaN (only ever compared, |.| and negation keep it)
 };
 static std::vector<Node> T;
 static std::unordered_map<std::string, uint32_t> H;   // hash-consing
@@ -76,8 +77,9 @@ static uint32_t mkbits(uint64_t bits, int width){   // UF mode: a constant is an
   if (d == d && !std::isinf(d)) { n.val = mpq_class(d); n.cmpdom = 1; n.point = true; n.lo = n.hi = n.val; }
   return mk(n, "k" + std::to_string(bits) + "w" + std::to_string(width));
 }
+static uint32_t mknan(){ Node n; n.k = K_CONST; n.width = 64; n.cmpdom = 0; n.nan = true; n.name = "nan"; return mk(n, "knan"); }
 static uint32_t mkinf(int sign){ Node n; n.k = K_CONST; n.width = 64; n.cmpdom = 0; n.inf = sign; n.name = sign > 0 ? "pinf" : "ninf"; return mk(n, sign > 0 ? "kpinf" : "kninf"); }
-extern "C" vr64 vs_const_bits64(uint64_t bits){ if (bits == 0x7ff0000000000000ULL) return mkinf(1); if (bits == 0xfff0000000000000ULL) return mkinf(-1); if (UF) return mkbits(bits, 64); double d; memcpy(&d, &bits, 8); return mkconst(from_double(d), 64); }
+extern "C" vr64 vs_const_bits64(uint64_t bits){ if ((bits & 0x7ff0000000000000ULL) == 0x7ff0000000000000ULL && (bits & 0xfffffffffffffULL)) return mknan(); if (bits == 0x7ff0000000000000ULL) return mkinf(1); if (bits == 0xfff0000000000000ULL) return mkinf(-1); if (UF) return mkbits(bits, 64); double d; memcpy(&d, &bits, 8); return mkconst(from_double(d), 64); }
 extern "C" vr32 vs_const_bits32(uint32_t bits){ if (UF) return mkbits(bits, 32); float f; memcpy(&f, &bits, 4); return mkconst(from_double((double)f), 32); }
 extern "C" vr64 vs_q(long num, long den){ mpq_class q(num, den); q.canonicalize(); return mkconst(q, 64); }
 extern "C" vr64 vs_qstr(const char* s){
@@ -109,6 +111,7 @@ extern "C" vr64 vs_var_between(const char* name, vr64 lo, vr64 hi){
   return mk(n, std::string("v") + name);
 }
 extern "C" int vs_is_const(vr64 a){ return N(a).k == K_CONST; }
+extern "C" int vs_is_finite_const(vr64 a){ Node& n = N(a); return n.k == K_CONST && !n.nan && !n.inf && (!UF || n.cmpdom); }
 extern "C" int vs_is_zero(vr64 a){ Node& n = N(a); return n.k == K_CONST && n.val == 0; }
 extern "C" int vs_cmp_const(vr64 a, vr64 b){ Node& x = N(a); Node& y = N(b); if (x.k != K_CONST || y.k != K_CONST) vs_error("vs_cmp_const on non-constant"); return cmp(x.val, y.val); }
 
@@ -153,6 +156,9 @@ static const char* UNN[] = {"fneg", "fpext", "fptrunc", "sqrt", "fabs", "ceil", 
 extern "C" vr64 vs_un(int op, int width, vr64 a_){
   uint32_t a = H_(a_); Node& x = N(a);
   if (x.k == K_POISON) return 1;
+  if (x.nan && (op == 0 || op == 4)) return a;
+  if (x.inf && op == 4) return mkinf(1);
+  if (x.inf && op == 0) return mkinf(-x.inf);
   if (UF) {
     Node n; n.k = K_UF; n.name = std::string(UNN[op]) + std::to_string(width); n.a = a; n.b = 0xffffffffu; n.width = width;
     return mk(n, "u" + n.name + "," + std::to_string(a));
@@ -211,7 +217,8 @@ static int order_of(uint32_t a, uint32_t b){  // -1, 0, 1, or 2 = unknown
 }
 extern "C" uint8_t vs_fcmp(int p, vr64 a, vr64 b){
   if (p == VRP_FALSE) return 0; if (p == VRP_TRUE) return 1;
-  if (p == VRP_ORD) return 1; if (p == VRP_UNO) return 0;       // no NaN in this domain
+  if (N(a).nan || N(b).nan) return p >= VRP_UEQ;                // the literal NaN: ordered predicates false, unordered true
+  if (p == VRP_ORD) return 1; if (p == VRP_UNO) return 0;       // no other NaN in this domain
   if (N(a).k == K_POISON || N(b).k == K_POISON) vs_error("float read from uninitialised memory used in a comparison");
   { // a variable declared non-zero against the constant zero: decided for ==/!= only
     Node& x = N(a); Node& y = N(b); bool xz = x.k == K_CONST && x.val == 0, yz = y.k == K_CONST && y.val == 0;
